@@ -1300,7 +1300,15 @@ def sequence_maps(fnode) -> dict:
             if len(stores) != 1 or len(calls) != 1 or calls[0].func.attr != 'append' or \
                     len(calls[0].args) != 1 or calls[0].keywords:
                 continue
-            for later in block[index + 1:]:
+            following = []
+            todo = list(block[index + 1:])
+            while todo:
+                # the loop may sit inside `with` blocks that follow (entered exactly once)
+                nxt = todo.pop(0)
+                following.append(nxt)
+                if isinstance(nxt, (ast.With, ast.AsyncWith)):
+                    todo = list(nxt.body) + todo
+            for later in following:
                 if isinstance(later, ast.For) and any(c is calls[0] for c in ast.walk(later)):
                     body, cond = later.body, None
                     if len(body) == 1 and isinstance(body[0], ast.If) and not body[0].orelse:
